@@ -10,12 +10,13 @@
 (***************************************************************************)
 EXTENDS Integers, Sequences, TLC, Json
 
-CONSTANTS Depth   \* number of option changes per generated configuration
+CONSTANTS Depth,  \* number of option changes per generated configuration
+          Mode    \* "all": everything reachable (C20);  "c01": the supported configuration set of C01
 
 VARIABLES cfg, steps
 vars == <<cfg, steps>>
 
-Domain == [
+DomainAll == [
   nr_exp |-> {2, 3, 4}, ntheta_exp |-> {0, 2, 3, 4, 5},   \* 0 encodes the automatic choice (-1 on the command line)
   divideBy2 |-> {0, 1}, maxLevels |-> {0, 1, 2, 3, 6},     \* 0 encodes "no cap" (-1)
   DirBC |-> {0, 1}, geometry |-> {0, 1, 2}, problem |-> {0, 1, 2},
@@ -25,11 +26,29 @@ Domain == [
   maxIter |-> {0, 1, 6}, norm |-> {0, 1, 2, 9},
   absOn |-> {0, 1}, relOn |-> {0, 1},
   method |-> {0, 1, 4},                                     \* take, give, invalid
-  cacheDP |-> {0, 1}, cacheDG |-> {0, 1}, threads |-> {1, 3}, exact |-> {0, 1} ]
+  cacheDP |-> {0, 1}, cacheDG |-> {0, 1}, threads |-> {1, 3}, exact |-> {0, 1}, alpha |-> {0, 1, 2, 3}, beta |-> {0, 1} ]
+
+\* the configuration set C01 quantifies over: shipped geometry x coefficient x problem triples, both boundary treatments,
+\* both strategies (take with its caches), extrapolation none/implicit/combined (and full grid smoothing for the
+\* 'a reported stop is true' half), every cycle, FMG with every cycle, >= 1 pre and post smoothing step, level caps,
+\* all norm types, finest grid at least 17 x 32
+DomainC01 == [
+  nr_exp |-> {4, 5}, ntheta_exp |-> {0, 5}, divideBy2 |-> {0}, maxLevels |-> {0, 2, 3},
+  DirBC |-> {0, 1}, geometry |-> {0, 1, 2}, problem |-> {0, 1, 2},
+  ext |-> {0, 1, 2, 3}, fmg |-> {0, 1}, fmgIts |-> {1, 2, 3}, fmgCycle |-> {0, 1, 2},
+  cycle |-> {0, 1, 2}, pre |-> {1, 2}, post |-> {1, 2}, maxIter |-> {150}, norm |-> {0, 1, 2},
+  absOn |-> {0, 1}, relOn |-> {0, 1}, method |-> {0, 1}, cacheDP |-> {0, 1}, cacheDG |-> {0, 1}, threads |-> {1}, exact |-> {1},
+  alpha |-> {0, 1, 2, 3}, beta |-> {0, 1} ]
+Domain == IF Mode = "c01" THEN DomainC01 ELSE DomainAll
+\* combinations inside the walk that C01 does not quantify over
+Supported(c) == /\ (c.absOn = 1 \/ c.relOn = 1)
+                /\ (c.method = 0 => c.cacheDP = 1 /\ c.cacheDG = 1)
+                /\ c.cacheDP = c.cacheDG
 
 Default == [ nr_exp |-> 4, ntheta_exp |-> 0, divideBy2 |-> 0, maxLevels |-> 0, DirBC |-> 0, geometry |-> 0, problem |-> 0,
              ext |-> 0, fmg |-> 0, fmgIts |-> 1, fmgCycle |-> 0, cycle |-> 0, pre |-> 1, post |-> 1, maxIter |-> 6, norm |-> 0,
-             absOn |-> 1, relOn |-> 1, method |-> 1, cacheDP |-> 1, cacheDG |-> 1, threads |-> 1, exact |-> 1 ]
+             absOn |-> 1, relOn |-> 1, method |-> 1, cacheDP |-> 1, cacheDG |-> 1, threads |-> 1, exact |-> 1,
+             alpha |-> 1, beta |-> 0 ]
 
 Pow2(e) == IF e = 0 THEN 1 ELSE IF e = 1 THEN 2 ELSE IF e = 2 THEN 4 ELSE IF e = 3 THEN 8 ELSE IF e = 4 THEN 16
            ELSE IF e = 5 THEN 32 ELSE IF e = 6 THEN 64 ELSE 128
@@ -64,7 +83,7 @@ InC01Set(c) == Outcome(c) = "Runs" /\ c.pre >= 1 /\ c.post >= 1
 
 Names == DOMAIN Default
 
-Init == cfg = Default /\ steps = 0
+Init == cfg = [o \in DOMAIN DomainAll |-> IF o = "maxIter" /\ Mode = "c01" THEN 150 ELSE Default[o]] /\ steps = 0
 Set(o, v) == /\ steps < Depth /\ v \in Domain[o] /\ cfg[o] # v
              /\ cfg' = [cfg EXCEPT ![o] = v] /\ steps' = steps + 1
 Next == \E o \in Names : \E v \in Domain[o] : Set(o, v)
@@ -72,8 +91,8 @@ Spec == Init /\ [][Next]_vars
 
 \* sanity of the rule itself: two levels at least whenever it says Runs
 RuleSound == Outcome(cfg) = "Runs" => Levels(cfg) >= 2 /\ cfg.method \in {0, 1}
-Emit == IF steps = Depth
+Emit == IF steps = Depth /\ (Mode = "c01" => Supported(cfg))
         THEN PrintT("@@CASE " \o ToJson([cfg |-> cfg, outcome |-> Outcome(cfg), reasons |-> Reasons(cfg), levels |-> Levels(cfg),
-                                         nr |-> Nr(cfg), nt |-> Nt(cfg), c01 |-> InC01Set(cfg)]))
+                                         nr |-> Nr(cfg), nt |-> Nt(cfg), c01 |-> InC01Set(cfg), rate |-> (cfg.ext # 2)]))
         ELSE TRUE
 =============================================================================
